@@ -47,7 +47,7 @@ pub fn gen_layout(ch: &mut Choices) -> Layout {
     let ext = ch.pick(&["d.ts", "ts", "d.mts", "mts", "d.cts"]).to_string();
     // stems with extra dots: the module specifier is derived by replacing the TypeScript extension only
     let stem = *ch.pick(&["schema", "schema", "schema.generated", "api.v1.schema"]);
-    let schema_output = format!("{}/{stem}.{ext}", ch.pick(&["generated", ".", "src/generated/types", "../out", "src/ops", "pkg/web/src", "pkg/web/src/gen"]));
+    let schema_output = format!("{}/{stem}.{ext}", ch.pick(&["generated", ".", "src/generated/types", "../out", "src/ops", "pkg/web/src", "pkg/web/src/gen", ".generated", "src/ops/.gen"]));
     let resolvers_output = if ch.chance(1, 2) { Some(format!("{}/resolvers.d.ts", ch.pick(&["generated", ".", "src/server", "../out/sub", "pkg/server/src"]))) } else { None };
     let server_graphql_output = if ch.chance(1, 3) { Some(format!("{}/schema.js", ch.pick(&["generated", "src/server"]))) } else { None };
     let mode = *ch.pick(&MODES);
@@ -65,6 +65,8 @@ pub fn gen_layout(ch: &mut Choices) -> Layout {
 }
 
 pub struct ProjectOpts {
+    /// enable the built-in model plugin in a quarter of the projects (it injects a virtual schema file)
+    pub plugins: bool,
     pub wild_trivia: bool,
     pub imports: bool,
     pub max_schema_files: usize,
@@ -74,7 +76,7 @@ pub struct ProjectOpts {
 
 impl Default for ProjectOpts {
     fn default() -> Self {
-        ProjectOpts { wild_trivia: false, imports: true, max_schema_files: 3, doc: DocGenOpts::default(), schema: SchemaGenOpts::default() }
+        ProjectOpts { plugins: false, wild_trivia: false, imports: true, max_schema_files: 3, doc: DocGenOpts::default(), schema: SchemaGenOpts::default() }
     }
 }
 
@@ -109,7 +111,7 @@ pub fn gen_project(case: &mut Case, o: &ProjectOpts) -> GenProject {
     }
     // operations: 1..3 files; fragments may live in a library file imported by the others
     let (gd, _) = gen_doc(&mut case.ch, &gs.schema, &o.doc);
-    let doc = gd.doc;
+    let doc = crate::props::c08::tame_exponential(case, &gs.schema, gd.doc);
     let mut op_models: Vec<(String, MOpDoc)> = vec![];
     let ops_base = join(&layout.root, &layout.ops_dir);
     // fragments are distributed over up to three library files in different directories; every file
@@ -170,6 +172,10 @@ pub fn gen_project(case: &mut Case, o: &ProjectOpts) -> GenProject {
     let schema_glob = join(&layout.schema_dir, "*.graphqls");
     let docs_glob = join(&layout.ops_dir, "**/*.graphql");
     let mut cfg = format!("schema: \"{schema_glob}\"\ndocuments: \"{docs_glob}\"\nextensions:\n  nitrogql:\n    generate:\n      mode: \"{}\"\n      schemaOutput: \"{}\"\n", layout.mode, layout.schema_output);
+    if o.plugins && case.ch.chance(1, 4) {
+        cfg = cfg.replace("  nitrogql:\n", "  nitrogql:\n    plugins:\n      - \"nitrogql:model-plugin\"\n");
+        case.label("model-plugin");
+    }
     let scfg = crate::refexec::ScalarCfg::generate(&mut case.ch, &gs.schema, false);
     let builtin_defaults = crate::refexec::ScalarCfg::builtin();
     let mut configured: Vec<String> = gs.schema.of_kind(Kind::Scalar).iter().map(|t| t.name.clone()).collect();
